@@ -7,7 +7,7 @@ C07FF   == <<223, 191>>                \* U+07FF, highest 2-byte char
 CFFFF   == <<239, 191, 191>>           \* U+FFFF
 C10FFFF == <<244, 143, 191, 191>>      \* U+10FFFF
 CD7FF   == <<237, 159, 191>>           \* U+D7FF (lead byte ED)
-Alpha   == {CA, CNT, C0800, CCRAB} \cup (IF Wide THEN {C07FF, CFFFF, C10FFFF, CD7FF, CSQRT} ELSE {})
+Alpha   == {CA, CNT, C0800, CCRAB, <<0>>} \cup (IF Wide THEN {C07FF, CFFFF, C10FFFF, CD7FF, CSQRT} ELSE {})
 MCStrs  == StrsUpTo(Alpha, MaxChars)
 
 \* complete sweeps at the specification level (every scalar value)
